@@ -136,21 +136,24 @@ class FsmGraphMonitor:
 
     "After its Master has": every entry of a slave into a Master-driven state must be matched by a distinct
     earlier entry of its Master into that state (entries are counted per instance life; a slave that follows
-    the FIFO publications of its Master may lag behind by several states, but can never be ahead)."""
+    the FIFO publications of its Master may lag behind by several states, but can never be ahead), or the Master
+    must have entered that state since its own last election (a slave that re-elected on its own catches up)."""
 
     def __init__(self, n, qualifier=''):
         self.n = n
         self.entries = [dict() for _ in range(n)]          # instance -> {state: number of entries}
+        self.epoch = [set() for _ in range(n)]             # instance -> states entered since its last (re-)election
         self.followed = [dict() for _ in range(n)]         # slave -> {(master, state): entries made following it}
         # narrows signatures to the configuration class in which they were met (known findings stay narrow)
         self.q = qualifier
 
     def key(self, c):
         return ('fsm', tuple(tuple(sorted(e.items())) for e in self.entries),
-                tuple(tuple(sorted(f.items())) for f in self.followed))
+                tuple(tuple(sorted(f.items())) for f in self.followed), tuple(tuple(sorted(e)) for e in self.epoch))
 
     def on_restart(self, idx):
         self.entries[idx] = {}
+        self.epoch[idx] = set()
         self.followed[idx] = {}
         for f in self.followed:
             for k in [k for k in f if k[0] == idx]:
@@ -162,6 +165,10 @@ class FsmGraphMonitor:
             w.violations.append({'clause': 'edge-not-in-graph', 'signature': f'C02:edge:{old}->{new}',
                                  'idx': idx, 'old': old, 'new': new})
         self.entries[idx][new] = self.entries[idx].get(new, 0) + 1
+        if new in ('OFF', 'SYNCHRONIZATION', 'ELECTION'):
+            self.epoch[idx] = set()
+        else:
+            self.epoch[idx].add(new)
         if new in MASTER_DRIVEN:
             m = master_of(s)
             if not m:
@@ -177,7 +184,9 @@ class FsmGraphMonitor:
                 ms = w.sups[mi]
                 used = self.followed[idx].get((mi, new), 0)
                 have = self.entries[mi].get(new, 0) if ms.alive else 0
-                if have <= used:
+                # a slave that went through an election of its own and catches up with a Master that has been in that
+                # state since its last election is not ahead of it either
+                if have <= used and not (ms.alive and new in self.epoch[mi]):
                     w.violations.append({'clause': 'slave-before-master',
                                          'signature': f'C02:slave-before-master:{old}->{new}{self.q}', 'idx': idx,
                                          'master': mi, 'master_alive': ms.alive,
